@@ -97,12 +97,11 @@ Lemma emitted_json_name api names at_ os ns f :
 Proof. rewrite emit_field_attr. apply json_name_invariant. Qed.
 
 (* ------------------------------------------------------------------ manifest *)
-Definition decl_name' (d : decl) : string := match d with DEnum n _ => n | DMsg n _ _ => n end.
-Lemma emit_msg_name api names pkg module parent m : decl_name' (emit_msg api names pkg module parent m) = m_name m.
+Lemma emit_msg_name api names pkg module parent m : decl_name (emit_msg api names pkg module parent m) = m_name m.
 Proof. destruct m; reflexivity. Qed.
 
 Lemma manifest_complete api f :
-  map decl_name' (emit_file api f) = h_manifest (emit_header api f).
+  map decl_name (emit_file api f) = h_manifest (emit_header api f).
 Proof.
   unfold emit_file, emit_header. simpl. rewrite map_app, !map_map. f_equal.
   apply map_ext. intro m. apply emit_msg_name.
@@ -414,6 +413,15 @@ Proof.
       * constructor; assumption.
 Qed.
 
+Lemma non_entry_r_skip_entries {B} (f : rmsg -> B) full at_ ns rs l :
+  map_non_entry_r f (rs ++ flat_map (entry_for full at_ ns) l)%list = map_non_entry_r f rs.
+Proof.
+  induction rs as [|r rs IHr]; cbn.
+  - induction l as [|g l IHl]; [reflexivity|]. cbn [flat_map]. unfold entry_for at 1.
+    destruct (entry_of at_ ns g) as [[k v]|]; cbn; assumption.
+  - destruct (rm_map_entry r); [apply IHr | f_equal; apply IHr].
+Qed.
+
 Theorem decl_roundtrip api names tab ltypes globals pkg module m :
   roundtrip_at api names tab ltypes globals pkg module m.
 Proof.
@@ -444,11 +452,262 @@ Proof.
       * now apply in_map.
       * unfold emit_field. rewrite Ee. cbn. exact Ho.
     + apply incl_refl.
-  - (* nested views: entries are skipped *)
-    assert (Hent : forall l, map_non_entry_r (view_rt full) (rs ++ flat_map (entry_for full at_ ns) l)%list = map_non_entry_r (view_rt full) rs).
-    { intro l. induction rs as [|r rs' IHr]; cbn.
-      - induction l as [|g l IHl]; [reflexivity|]. cbn [flat_map]. unfold entry_for at 1.
-        destruct (entry_of at_ ns g) as [[k v]|]; cbn; assumption.
-      - inversion Hall; subst. destruct (rm_map_entry r); [apply IHr; assumption | f_equal; apply IHr; assumption]. }
-    rewrite Hent. exact Hview.
+  - rewrite non_entry_r_skip_entries. exact Hview.
 Qed.
+
+(* ------------------------------------------------------------------ file level *)
+Lemma rt_top_enums tab pkgs ltypes es : forall g rest,
+  forallb enum_ok es = true ->
+  rt_top tab pkgs ltypes g (map emit_enum es ++ rest)%list =
+  match rt_top tab pkgs ltypes (enum_globals pkgs es g) rest with
+  | Some (e, m) => Some ((map enum_view es ++ e)%list, m)
+  | None => None
+  end.
+Proof.
+  induction es as [|x es IH]; intros g rest H; cbn [map app enum_globals fold_left].
+  - destruct (rt_top tab pkgs ltypes g rest) as [[e m]|]; reflexivity.
+  - cbn [forallb] in H. apply andb_true_iff in H as [Hx Hes].
+    cbn [rt_top rt_msg emit_enum decl_name]. rewrite (rt_enum_ok x Hx).
+    rewrite (IH _ rest Hes). unfold enum_globals.
+    destruct (rt_top tab pkgs ltypes _ rest) as [[e m]|]; reflexivity.
+Qed.
+
+Lemma rt_top_msgs api names tab ltypes pkg module : forall ms g,
+  msgs_ok api names tab ltypes pkg module g ms = true ->
+  exists rs, rt_top tab (dotted pkg) ltypes g (map (emit_msg api names pkg module []) ms) = Some ([], rs)
+             /\ map (view_rt (dotted pkg)) rs = map (view_in pkg module []) ms.
+Proof.
+  induction ms as [|m ms IH]; intros g H.
+  - exists []. split; reflexivity.
+  - cbn [msgs_ok] in H. apply andb_true_iff in H as [H Hms]. apply andb_true_iff in H as [Hwf Hrefs].
+    destruct (decl_roundtrip api names tab ltypes g pkg module m (dotted pkg) [] Hwf Hrefs) as (r & Hr & Hv & _).
+    cbn [map rt_top]. rewrite Hr, emit_msg_name.
+    destruct (IH _ Hms) as (rs & Hrs & Hvs). rewrite Hrs.
+    exists (r :: rs). split; [reflexivity|]. cbn [map]. now rewrite Hv, Hvs.
+Qed.
+
+Theorem file_roundtrip api tab f :
+  file_ok api tab f = true ->
+  exists ms, runtime_file tab (emit_header api f) (emit_file api f) = Some (map enum_view (fd_enums f), ms)
+             /\ map (view_rt (dotted (fd_pkg f))) ms = map (view_in (fd_pkg f) (fd_module f) []) (fd_msgs f).
+Proof.
+  unfold file_ok, runtime_file. destruct (h_proto_alias (emit_header api f)) as [p|] eqn:Ep; [|discriminate].
+  intro H. apply andb_true_iff in H as [He Hm].
+  change (h_package (emit_header api f)) with (dotted (fd_pkg f)).
+  unfold emit_file at 2. rewrite (rt_top_enums _ _ _ _ _ _ He).
+  destruct (rt_top_msgs _ _ _ _ _ _ _ _ Hm) as (rs & Hrs & Hv). rewrite Hrs.
+  exists rs. split; [now rewrite app_nil_r | exact Hv].
+Qed.
+
+(* ------------------------------------------------------------------ Address.rel: what is proved about resolution *)
+Lemma list_eqb_string_eq : forall a b : list string, list_eqb String.eqb a b = true -> a = b.
+Proof.
+  induction a as [|x a IH]; destruct b as [|y b]; simpl; intro H; try discriminate; [reflexivity|].
+  apply andb_true_iff in H as [Hx Hl]. apply String.eqb_eq in Hx. subst. f_equal. now apply IH.
+Qed.
+
+Lemma rel_RQ_shape api names self at_ s :
+  rel api names self at_ = RQ s -> s = dotted (a_parent self ++ [a_name self])%list /\ a_pkg self = a_pkg at_.
+Proof.
+  unfold rel. destruct (list_eqb String.eqb (a_pkg self) (a_pkg at_) && String.eqb (a_module self) (a_module at_)) eqn:E;
+    [|discriminate].
+  apply andb_true_iff in E as [Ep _]. apply list_eqb_string_eq in Ep.
+  destruct (a_parent self) as [|p ptl].
+  - intro H. inversion H. auto.
+  - destruct (match a_parent at_ with [] => false | q :: _ => String.eqb p q end).
+    + intro H. inversion H. auto.
+    + destruct (String.eqb p (a_name at_)); intro H; [discriminate | inversion H; auto].
+Qed.
+
+(* every QUOTED reference (forward, recursive, sibling-nested, enclosing) is resolved by proto-plus to the type it was printed
+   for, provided the type is declared by the module and its dotted path does not itself start with the package string *)
+Lemma rel_quoted_resolves api names tab ltypes locals globals self at_ k s :
+  rel api names self at_ = RQ s ->
+  has_type (full_name self) k ltypes = true ->
+  starts_with (dotted (a_pkg at_)) s = false ->
+  resolve tab (dotted (a_pkg at_)) ltypes locals globals (Some (kw_of k, RQ s)) = Some (full_name self).
+Proof.
+  intros Hr Ht Hs. apply rel_RQ_shape in Hr as [-> Hp].
+  unfold resolve. rewrite kind_of_kw_of. unfold resolve_rq, qualify. rewrite Hs.
+  unfold full_name in *. rewrite <- Hp. now rewrite Ht.
+Qed.
+
+(* an unquoted reference denotes the right type as soon as its FIRST name is bound, where it is evaluated, to the object
+   rel assumes: the class of the same name nested in the message being declared (same file), or the module of the type
+   (other file).  Whether that binding exists is the part not proved in general: see rel_misfire_refuted and
+   pb2_shadow_refuted for the two ways it fails on the code as it is, and file_ok, evaluated on every case by the harness. *)
+Definition head_bound (api : apiD) (names : list string) (tab : modtab) (ltypes : typeset) (locals globals : scope)
+                      (self at_ : addr) (k : tkind) : bool :=
+  match rel api names self at_ with
+  | RQ s => has_type (full_name self) k ltypes && negb (starts_with (dotted (a_pkg at_)) s)
+  | RX [] => false
+  | RX (h :: rest) =>
+      if list_eqb String.eqb (a_pkg self) (a_pkg at_) && String.eqb (a_module self) (a_module at_) then
+        match lookup2 h locals globals with
+        | Some (PVType t) =>
+            String.eqb t (dotted (a_pkg at_) ++ "." ++ a_name at_ ++ "." ++ h) && has_type (full_name self) k ltypes
+            && is_empty (dotted (a_parent at_))
+        | _ => false
+        end
+      else
+        match lookup2 h locals globals with
+        | Some (PVMod key) =>
+            String.eqb key (mod_key self)
+            && match assoc key tab with
+               | Some (p, paths) => String.eqb p (dotted (a_pkg self))
+                                    && has_type (dotted (a_parent self ++ [a_name self])%list) k paths
+               | None => false
+               end
+        | _ => false
+        end
+  end.
+
+Lemma sjoin_cons2 sep x y l : sjoin sep (x :: y :: l) = x ++ sep ++ sjoin sep (y :: l).
+Proof. reflexivity. Qed.
+
+Lemma dotted_snoc_nonempty (l : list string) (x : string) : exists y l', (l ++ [x])%list = y :: l'.
+Proof. destruct l as [|y l]; simpl; eauto. Qed.
+
+Lemma resolve_quoted_direct tab ltypes locals globals (self at_ : addr) k par :
+  a_parent self = par -> a_pkg self = a_pkg at_ ->
+  has_type (full_name self) k ltypes && negb (starts_with (dotted (a_pkg at_)) (dotted (par ++ [a_name self])%list)) = true ->
+  resolve tab (dotted (a_pkg at_)) ltypes locals globals (Some (kw_of k, RQ (dotted (par ++ [a_name self])%list)))
+  = Some (full_name self).
+Proof.
+  intros <- Hp H. apply andb_true_iff in H as [Ht Hs]. apply negb_true_iff in Hs.
+  unfold resolve. rewrite kind_of_kw_of. unfold resolve_rq, qualify. rewrite Hs.
+  unfold full_name in *. rewrite <- Hp. now rewrite Ht.
+Qed.
+
+Theorem rel_resolves_partial api names tab ltypes locals globals self at_ k :
+  head_bound api names tab ltypes locals globals self at_ k = true ->
+  resolve tab (dotted (a_pkg at_)) ltypes locals globals (Some (kw_of k, rel api names self at_)) = Some (full_name self).
+Proof.
+  unfold head_bound, rel.
+  destruct (list_eqb String.eqb (a_pkg self) (a_pkg at_) && String.eqb (a_module self) (a_module at_)) eqn:Es.
+  - (* same file *)
+    pose proof Es as Es'. apply andb_true_iff in Es' as [Ep _]. apply list_eqb_string_eq in Ep.
+    destruct (a_parent self) as [|p ptl] eqn:Epar.
+    + now apply resolve_quoted_direct.
+    + destruct (match a_parent at_ with [] => false | q :: _ => String.eqb p q end).
+      * now apply resolve_quoted_direct.
+      * destruct (String.eqb p (a_name at_)) eqn:Epn; [|now apply resolve_quoted_direct].
+        apply String.eqb_eq in Epn.
+        destruct (ptl ++ [a_name self])%list as [|h rest] eqn:Ec; [discriminate|].
+        destruct (lookup2 h locals globals) as [[key|t|]|] eqn:El; try discriminate.
+        intro H. apply andb_true_iff in H as [H _]. apply andb_true_iff in H as [Ht Hty]. apply String.eqb_eq in Ht.
+        unfold resolve. rewrite kind_of_kw_of. unfold resolve_rx. rewrite El.
+        assert (Hfull : full_name self = match rest with [] => t | _ :: _ => t ++ "." ++ dotted rest end).
+        { unfold full_name. rewrite Epar, Ep, Ht, Epn. cbn [app]. rewrite Ec.
+          unfold dotted. destruct rest as [|r rest']; cbn [sjoin]; rewrite ?sapp_assoc; reflexivity. }
+        rewrite <- Hfull, Hty. reflexivity.
+  - (* other file: module.Parent.Name *)
+    unfold str_comps.
+    set (h := if is_pp api (a_pkg self) then _ else _).
+    destruct (lookup2 h locals globals) as [[key|t|]|] eqn:El; try discriminate.
+    intro H. apply andb_true_iff in H as [Hk H]. apply String.eqb_eq in Hk.
+    destruct (assoc key tab) as [[p paths]|] eqn:Ea; [|discriminate].
+    apply andb_true_iff in H as [Hp Hty]. apply String.eqb_eq in Hp.
+    unfold resolve. rewrite kind_of_kw_of. unfold resolve_rx. rewrite El, Ea.
+    destruct (dotted_snoc_nonempty (a_parent self) (a_name self)) as (y & l' & Hy). rewrite Hy in *.
+    rewrite Hty. unfold full_name. now rewrite Hp, Hy.
+Qed.
+
+(* ------------------------------------------------------------------ witnesses: the hypotheses that protoc does not give *)
+Definition PK : list string := ["google"; "example"; "c02"; "v1"].
+Definition api0 : apiD := mkApi "google.example.c02.v1" "v1" ["google"; "example"; "c02_v1"] [].
+Definition mref (parent : list string) (n : string) : ftype := TRef KMsg (mkAddr PK "main" parent n).
+
+(* (1) a proto3 enum whose first DECLARED value is zero but whose least number is negative: proto-plus sorts by number *)
+Definition w_enum : enumD := mkEnum "Temp" [("TEMP_UNSPECIFIED", 0%Z); ("HOT", 1%Z); ("COLD", (-1)%Z)].
+Definition w_enum_file : fileD :=
+  mkFile PK "main" [w_enum] [Msg "Reading" [mkField "temp" 1 (TRef KEnum (mkAddr PK "main" [] "Temp")) false None false] [] [] [] false].
+Lemma enum_negative_refuted :
+  exists f e, In e (fd_enums f)
+    /\ (match e_values e with (_, 0%Z) :: _ => True | _ => False end)      (* protoc: first declared value is zero *)
+    /\ NoDup (map snd (e_values e)) /\ NoDup (map fst (e_values e))
+    /\ enum_ok e = false
+    /\ runtime_file [] (emit_header api0 f) (emit_file api0 f) = None.
+Proof.
+  exists w_enum_file, w_enum. split; [now left|]. split; [exact I|].
+  split; [repeat constructor; simpl; intuition discriminate|].
+  split; [repeat constructor; simpl; intuition discriminate|].
+  split; vm_compute; reflexivity.
+Qed.
+
+(* (2) Address.rel, second special case: a nested message X.Foo whose field has type Foo.Bar, Foo a top-level message of the
+   same file.  rel prints the bare name Bar, which is evaluated in the body of X.Foo *)
+Definition w_misfire (own_bar : bool) : fileD :=
+  mkFile PK "main" []
+    [Msg "Foo" [] [] [Msg "Bar" [mkField "v" 1 (TScalar S_INT32) false None false] [] [] [] false] [] false;
+     Msg "X" [] []
+         [Msg "Foo" [mkField "bar" 1 (mref ["Foo"] "Bar") false None false] []
+              (if own_bar then [Msg "Bar" [mkField "w" 1 (TScalar S_STRING) false None false] [] [] [] false] else []) [] false]
+         [] false].
+Lemma rel_misfire_refuted :
+  (* the schema satisfies wf_msg everywhere, the referenced type exists, and yet the module fails (NameError) ... *)
+  forallb (wf_msg PK "main" "google.example.c02.v1" []) (fd_msgs (w_misfire false)) = true
+  /\ has_type "google.example.c02.v1.Foo.Bar" KMsg (flat_map (decl_types "google.example.c02.v1") (emit_file api0 (w_misfire false))) = true
+  /\ rel api0 [] (mkAddr PK "main" ["Foo"] "Bar") (mkAddr PK "main" ["X"] "Foo") = RX ["Bar"]
+  /\ file_ok api0 [] (w_misfire false) = false
+  /\ runtime_file [] (emit_header api0 (w_misfire false)) (emit_file api0 (w_misfire false)) = None
+  (* ... or, when X.Foo has a nested Bar of its own, silently declares the field with the WRONG type *)
+  /\ forallb (wf_msg PK "main" "google.example.c02.v1" []) (fd_msgs (w_misfire true)) = true
+  /\ exists ms, runtime_file [] (emit_header api0 (w_misfire true)) (emit_file api0 (w_misfire true)) = Some ([], ms)
+                /\ map (view_rt "google.example.c02.v1") ms <> map (view_in PK "main" []) (fd_msgs (w_misfire true)).
+Proof.
+  repeat split; try (vm_compute; reflexivity).
+  eexists. split; [vm_compute; reflexivity|]. vm_compute. discriminate.
+Qed.
+
+(* (3) DESIGN section 9 no. 15: two non-proto-plus dependency packages with a file of the same base name are both imported
+   under the plain name thing_pb2; the import that sorts last wins *)
+Definition w_tab (second : string) : modtab :=
+  [("foo.bar/thing", ("foo.bar", [("A", KMsg)])); ("fab.baz/thing", ("fab.baz", [(second, KMsg)]))].
+Definition w_pb2 (second : string) : fileD :=
+  mkFile PK "main" []
+    [Msg "Holder" [mkField "a" 1 (TRef KMsg (mkAddr ["foo"; "bar"] "thing" [] "A")) false None false;
+                   mkField "b" 2 (TRef KMsg (mkAddr ["fab"; "baz"] "thing" [] second)) false None false] [] [] [] false].
+Lemma pb2_shadow_refuted :
+  map imp_local (h_imports (emit_header api0 (w_pb2 "B"))) = ["thing_pb2"; "thing_pb2"]
+  /\ map imp_line (h_imports (emit_header api0 (w_pb2 "B"))) = ["from fab.baz import thing_pb2"; "from foo.bar import thing_pb2"]
+  /\ forallb (wf_msg PK "main" "google.example.c02.v1" []) (fd_msgs (w_pb2 "B")) = true
+  /\ file_ok api0 (w_tab "B") (w_pb2 "B") = false
+  /\ runtime_file (w_tab "B") (emit_header api0 (w_pb2 "B")) (emit_file api0 (w_pb2 "B")) = None       (* AttributeError *)
+  /\ exists ms, runtime_file (w_tab "A") (emit_header api0 (w_pb2 "A")) (emit_file api0 (w_pb2 "A")) = Some ([], ms)
+                /\ map (view_rt "google.example.c02.v1") ms <> map (view_in PK "main" []) (fd_msgs (w_pb2 "A")). (* wrong type *)
+Proof.
+  repeat split; try (vm_compute; reflexivity).
+  eexists. split; [vm_compute; reflexivity|]. vm_compute. discriminate.
+Qed.
+
+(* ------------------------------------------------------------------ a non-trivial schema satisfying every hypothesis *)
+Definition ex_tab : modtab :=
+  [("google.example.c02.v1/res", ("google.example.c02.v1", [("Shape", KMsg); ("Shape.Kind", KEnum); ("Color", KEnum)]));
+   ("google.protobuf/struct", ("google.protobuf", [("Struct", KMsg); ("Value", KMsg); ("NullValue", KEnum)]))].
+Definition ex_file : fileD :=
+  mkFile PK "main" [mkEnum "Mode" [("MODE_UNSPECIFIED", 0%Z); ("FAST", 7%Z); ("SLOW", 2%Z)]]
+    [Msg "Alpha"
+       [mkField "beta" 1 (mref ["Alpha"] "Beta") false None false;
+        mkField "gamma" 2 (mref ["Alpha"; "Beta"] "Gamma") true None false;
+        mkField "self_ref" 3 (mref [] "Alpha") false None false;
+        mkField "later" 4 (mref [] "Later") false None false;
+        mkField "class" 5 (TScalar S_STRING) false None false;
+        mkField "shape" 6 (TRef KMsg (mkAddr PK "res" [] "Shape")) false None false;
+        mkField "kind" 7 (TRef KEnum (mkAddr PK "res" ["Shape"] "Kind")) false None true;
+        mkField "st" 8 (TRef KMsg (mkAddr ["google"; "protobuf"] "struct" [] "Struct")) false None false;
+        mkField "o1" 9 (TScalar S_SINT64) false (Some 0) false;
+        mkField "o2" 10 (mref ["Alpha"] "Beta") false (Some 0) false;
+        mkField "opt" 11 (TScalar S_BYTES) false (Some 1) true;
+        mkField "labels" 12 (mref ["Alpha"] "LabelsEntry") true None false;
+        mkField "import" 13 (mref ["Alpha"] "ImportEntry") true None false;
+        mkField "mode" 14 (TRef KEnum (mkAddr PK "main" [] "Mode")) true None false]
+       ["pick"; "_opt"]
+       [Msg "Beta" [mkField "g" 1 (mref ["Alpha"; "Beta"] "Gamma") false None false; mkField "up" 2 (mref [] "Alpha") false None false] []
+            [Msg "Gamma" [mkField "x" 1 (TScalar S_FIXED32) false None false] [] [] [] false] [] false;
+        Msg "LabelsEntry" [mkField "key" 1 (TScalar S_STRING) false None false; mkField "value" 2 (TScalar S_DOUBLE) false None false] [] [] [] true;
+        Msg "ImportEntry" [mkField "key" 1 (TScalar S_BOOL) false None false; mkField "value" 2 (mref ["Alpha"] "Beta") false None false] [] [] [] true]
+       [] false;
+     Msg "Later" [mkField "alpha" 1 (mref [] "Alpha") false None false] [] [] [] false].
+Example ex_file_ok : file_ok api0 ex_tab ex_file = true.
+Proof. vm_compute. reflexivity. Qed.
